@@ -29,7 +29,7 @@ Definition run_brpos (input : val) : val :=
   let w := map vbool (vL (vnth 5 input)) in
   let hwobs := brpos_hwobs k in
   let h x := VN (if hwobs then x else 0) in
-  match brp_run hok hdr o (brpos_seek k) file w with
+  match brp_run64 hok hdr o (brpos_seek k) file w with   (* br.offset as uint64 *)
   | Err e => VL [VT "openerr"; v_err e]
   | Ok (v, roots, st0, (steps, (e, fin))) =>
     VL [VT "ok"; VN v; v_cids roots; VN (p_pos st0); h (p_hw st0);
